@@ -193,11 +193,20 @@ type peerReply struct {
 	unknown bool
 }
 
+// c06IDTail: ids are opaque strings chosen by the application: characters that need escaping in an attribute, spaces,
+// non-ASCII text
+func c06IDTail(ch *simrt.Chooser) string {
+	if !ch.Chance("workload", 1, 4) {
+		return ""
+	}
+	return []string{`&`, `<x>`, `"q'`, ` sp ace`, "ü€", `&amp;`, "a\tb"}[ch.Int("workload", 7)]
+}
+
 func replyXML(p *peerReply) string {
 	if p.typ == "error" {
-		return fmt.Sprintf(`<%s type="error" id="%s" from="example.net"><error type="cancel"><item-not-found xmlns="urn:ietf:params:xml:ns:xmpp-stanzas"/><text xmlns="urn:ietf:params:xml:ns:xmpp-stanzas">%s</text></error></%s>`, p.name, p.id, p.marker, p.name)
+		return fmt.Sprintf(`<%s type="error" id="%s" from="example.net"><error type="cancel"><item-not-found xmlns="urn:ietf:params:xml:ns:xmpp-stanzas"/><text xmlns="urn:ietf:params:xml:ns:xmpp-stanzas">%s</text></error></%s>`, p.name, escText(p.id), p.marker, p.name)
 	}
-	return fmt.Sprintf(`<%s type="result" id="%s" from="example.net"><r xmlns="urn:verif" m="%s"><c/><c/></r></%s>`, p.name, p.id, p.marker, p.name)
+	return fmt.Sprintf(`<%s type="result" id="%s" from="example.net"><r xmlns="urn:verif" m="%s"><c/><c/></r></%s>`, p.name, escText(p.id), p.marker, p.name)
 }
 
 func runC06(rc *RC) {
@@ -224,7 +233,7 @@ func runC06(rc *RC) {
 		var pl []*reqCall
 		for j := 0; j < k; j++ {
 			n++
-			c := &reqCall{kind: reqKinds[ch.Int("workload", len(reqKinds))], id: fmt.Sprintf("q%d%s", n, strings.Repeat("y", n%2)),
+			c := &reqCall{kind: reqKinds[ch.Int("workload", len(reqKinds))], id: fmt.Sprintf("q%d%s", n, strings.Repeat("y", n%2)) + c06IDTail(ch),
 				timeout: []time.Duration{50 * time.Millisecond, 300 * time.Millisecond, time.Second, 4 * time.Second}[ch.Int("workload", 4)], readProg: ch.Int("workload", 3)}
 			c.stanza = "iq"
 			if c.kind == "SendMessage" {
@@ -522,7 +531,7 @@ func runC06Receipts(rc *RC) {
 	var calls []*rcall
 	n := ch.Range("workload", 1, 4)
 	for i := 0; i < n; i++ {
-		c := &rcall{id: fmt.Sprintf("m%d", i), timeout: []time.Duration{30 * time.Millisecond, 300 * time.Millisecond, 2 * time.Second}[ch.Int("workload", 3)], ackStep: -1}
+		c := &rcall{id: fmt.Sprintf("m%d", i) + c06IDTail(ch), timeout: []time.Duration{30 * time.Millisecond, 300 * time.Millisecond, 2 * time.Second}[ch.Int("workload", 3)], ackStep: -1}
 		if ch.Chance("workload", 1, 3) {
 			c.cancelAt = time.Duration(ch.Range("workload", 0, 20)) * 10 * time.Millisecond
 		}
@@ -589,7 +598,7 @@ func runC06Receipts(rc *RC) {
 						if c.ackStep < 0 {
 							c.ackStep = rc.S.Steps
 						}
-						e.PeerWrite(fmt.Sprintf(`<message from="peer@example.net/r"><received xmlns="urn:xmpp:receipts" id="%s"/></message>`, id))
+						e.PeerWrite(fmt.Sprintf(`<message from="peer@example.net/r"><received xmlns="urn:xmpp:receipts" id="%s"/></message>`, escText(id)))
 						pending--
 					})
 				}
